@@ -38,7 +38,8 @@ def _items(tier):
     if tier == "quick":
         exprs = [ss[0] for _, ss in fams][:6] + ["friday 8pm-9pm"]
     else:
-        exprs = [s for _, ss in fams for s in ss]
+        # thorough: three sentences per family (the full arrangement product per expression is ~30k texts)
+        exprs = [s for _, ss in fams for s in ss[:3]]
     return w1, w2, list(dict.fromkeys(exprs))
 
 
@@ -65,7 +66,7 @@ def plan(tier, seed):
                             continue  # the prefix pair matters only when both hashtags are present  # tag-free texts are identical for every tag pair
                         items = list(sub) + [("e", e)]
                         for perm in itertools.permutations(items):
-                            seps = SEPS if (tier == "thorough" or k >= 3) else SEPS[:2]
+                            seps = SEPS if k >= 3 else SEPS[:2]
                             for sep in seps:
                                 yield (tuple(perm), sep)
                             if k >= 2:
